@@ -54,7 +54,9 @@ claim("C17",
       "ReadConn (MAXB=8) and WriteConn (MAXB=12) are model-checked for: overflow exactly when buffered bytes "
       "reach the limit, smaller frames accepted, oversized refused, buffer length <= limit, refused message "
       "contributes nothing; hook-lowered builds sweep every size/chunking near every step and the limit in both "
-      "directions, thorough adds the production 100 MiB inbound limit; all runs validated by TLC.",
+      "directions, thorough adds the production 100 MiB inbound limit; all runs validated by TLC. Thorough also "
+      "discharges, with Apalache, inductive invariants of the two size bookkeepings over unbounded integers "
+      "(specs/apalache/ReadBound.tla, WriteBound.tla: any limit K*256, any read / message size), with a vacuity check.",
       TRUST + "buffer constants lowered at compile time through the cfg(zlink_verif) hook",
       "TLA+ model checking (TLC) of ReadConn/WriteConn with a size limit + TLC trace validation of boundary sweeps",
       "4/C17")
